@@ -194,4 +194,16 @@ def Node.pay (n : Node) (p : Nat) : Option (Node × Option Nat) :=
       let cum := n.memR a
       some ({ n with chq := upd n.chq a cum, sLast := upd n.sLast a (some cum) }, some cum)
 
+/-- `Handshake(peer, recipient, signedCheque)` for a registered peer presenting a cheque of ours with
+    cumulative payout `c` (signature and recipient check out): it replaces the recorded last sent
+    cheque only if it is HIGHER (`putSendCheque`: cheque total := c, owed total := max owed c,
+    persisted last cheque := c); `none` = unknown peer. -/
+def Node.handshake (n : Node) (p c : Nat) : Option Node :=
+  match n.fwd p with
+  | none => none
+  | some a =>
+    if c > (n.sLast a).getD 0 then
+      some { n with chq := upd n.chq a c, memR := upd n.memR a (max (n.memR a) c), sLast := upd n.sLast a (some c) }
+    else some n
+
 end Aurora.TrafficPersist
